@@ -147,6 +147,18 @@ def std_modules(interp) -> dict:
             "collections": collections_module(), "urllib": urllib_module()}
 
 
+def json_module():
+    import json as _json
+
+    def encoder(**opts):
+        if opts.get("default") is not None:
+            raise AnalysisError("json.JSONEncoder with a default= function of the analysed program")
+        enc = _json.JSONEncoder(**opts)
+        return Record("JSONEncoder", {"encode": ("host", enc.encode)})
+    return ModuleRef("json", attrs={"dumps": ("host", _json.dumps), "loads": ("host", _json.loads),
+                                    "JSONEncoder": ("host", encoder)})
+
+
 def urllib_module():
     import urllib.parse as _up
 
@@ -260,7 +272,7 @@ class Interp:
                         self.globals[nm] = functools_module(self)
                     elif a.name == "json":
                         import json as _json
-                        self.globals[nm] = ModuleRef("json", attrs={"dumps": ("host", _json.dumps), "loads": ("host", _json.loads)})
+                        self.globals[nm] = json_module()
                     elif a.name == "operator":
                         self.globals[nm] = operator_module(self)
                     elif a.name == "collections":
